@@ -195,7 +195,7 @@ void h_viol_grow(void) { ARB(v); VF_INPUT(int, x); VF_INPUT(unsigned char, op); 
   else if (op == 1) { __CPROVER_assume(SZ(v) == N); v_emplace_back(&v, x); }
   else if (op == 2) { __CPROVER_assume(SZ(v) == N); v_insert(&v, data_of(&v) + p, &x); }
   else if (op == 3) { __CPROVER_assume(SZ(v) == N); v_emplace(&v, data_of(&v) + p, x); }
-  else if (op == 4) { __CPROVER_assume(c > N - SZ(v) && c <= 1000); v_insert_n(&v, data_of(&v) + p, c, &x); }
+  else if (op == 4) { __CPROVER_assume(c > N - SZ(v)); v_insert_n(&v, data_of(&v) + p, c, &x); }
   else if (op == 5) { __CPROVER_assume(c > N); v_resize(&v, c); }
   else if (op == 6) { __CPROVER_assume(c > N); v_resize_x(&v, c, &x); }
   else if (op == 7) { __CPROVER_assume(c > N); v_assign_n(&v, c, &x); }
